@@ -387,6 +387,7 @@ fn worker(opts: Opts) -> i32 {
     let n = ops.len();
     let mut counter = 0usize;
     let mut sess_no = 0u64;
+    let mut sampled = false;
     // second pass: histories of <= 3 (quick) / 4 (thorough) ops that contain a multi-op patch
     {
         let mut ext = ops.clone();
@@ -456,7 +457,8 @@ fn worker(opts: Opts) -> i32 {
                 let _ = std::fs::remove_dir_all(ctx.root.join(".rip/checkpoints"));
                 let _ = std::fs::create_dir_all(ctx.root.join(".rip/checkpoints"));
             }
-            if shard == 0 && sess_no == 7 {
+            if shard == 0 && nontrivial && !sampled {
+                sampled = true;
                 report.sample(case_json(&ctx, &history));
             }
         }
@@ -503,6 +505,10 @@ pub fn run(opts: Opts) -> i32 {
     }
     report.set_extra("depth", json!(depth));
     report.set_extra("alphabet_ops", json!(alphabet(report.tier()).len()));
+    // written-out examples of explored histories (the workers add one executed case each)
+    report.sample(json!({"process_cwd": "root", "history": [op_json(&Op::Checkpoint { paths: vec!["a"], absolute: false }), op_json(&Op::Write { path: "a", content: "2\n" }), op_json(&Op::Rewind { which: 0 })]}));
+    report.sample(json!({"process_cwd": "elsewhere", "history": [op_json(&Op::PatchMove { from: "a", to: "c" }), op_json(&Op::FileAtDir), op_json(&Op::Rewind { which: usize::MAX })]}));
+    report.sample(json!({"process_cwd": "root", "history": [op_json(&Op::PatchMulti { which: 0 }), op_json(&Op::Rewind { which: usize::MAX })]}));
     run_workers(&report, jobs, 16, &[]);
     report.finish()
 }
